@@ -1502,6 +1502,16 @@ fn g9_folds_and_families(kind: Kind, level: usize, f: &mut dyn FnMut(&[u8])) {
             }
         }
     }
+    // a few inputs beyond 64 KiB and beyond 65 535 header lines (narrow integer types for offsets,
+    // lengths or counts would truncate here); results are compared like any other buffer
+    if level >= 1 {
+        for &(fam, n) in &[(12usize, 400_000usize), (14, 70_000), (16, 70_000), (17, 70_000), (18, 70_000), (8, 70_000), (21, 900_000), (0, 70_000), (2, 70_000)] {
+            let s = g7(fam, n);
+            if Kind::of(s.entry) == kind {
+                f(&s.buf);
+            }
+        }
+    }
 }
 
 /// Targeted families named by the property records: all 1000 status codes,
